@@ -47,10 +47,18 @@ type sysUpstream struct {
 	delay   atomic.Int64 // max delay in microseconds; actual is uniform in [0, max]
 	rng     *rand.Rand
 	LogName bool
+	// PTRAsked counts PTR questions.
+	PTRAsked atomic.Int64
+	// ptrDelay (microseconds) is how long answers to PTR questions are held
+	// back.
+	ptrDelay atomic.Int64
 	// slowDelay (microseconds) is how long an answer for a name that begins
 	// with "slow" is held back.
 	slowDelay atomic.Int64
 }
+
+// SetPTRDelay makes the upstream hold back its answers to PTR questions for d.
+func (u *sysUpstream) SetPTRDelay(d time.Duration) { u.ptrDelay.Store(int64(d / time.Microsecond)) }
 
 // SetSlowDelay makes the upstream hold back its answers for names that begin
 // with "slow" for d.
@@ -108,10 +116,22 @@ func (u *sysUpstream) handle(w dns.ResponseWriter, req *dns.Msg) {
 		u.mu.Unlock()
 		time.Sleep(time.Duration(d) * time.Microsecond)
 	}
+	if strings.Contains(strings.ToLower(q.Name), ".failing.") {
+		// Not a DNS message: the exchange fails at once.
+		_, _ = w.Write([]byte{0})
+
+		return
+	}
 	resp := (&dns.Msg{}).SetReply(req)
 	resp.RecursionAvailable = true
 	hdr := dns.RR_Header{Name: q.Name, Rrtype: q.Qtype, Class: dns.ClassINET, Ttl: 30}
 	switch q.Qtype {
+	case dns.TypePTR:
+		u.PTRAsked.Add(1)
+		if pd := u.ptrDelay.Load(); pd > 0 {
+			time.Sleep(time.Duration(pd) * time.Microsecond)
+		}
+		resp.Answer = append(resp.Answer, &dns.PTR{Hdr: hdr, Ptr: "host-" + strings.ReplaceAll(strings.TrimSuffix(strings.ToLower(q.Name), ".in-addr.arpa."), ".", "-") + ".rdns.verif.example."})
 	case dns.TypeA:
 		resp.Answer = append(resp.Answer, &dns.A{Hdr: hdr, A: net.IPv4(198, 18, byte(n>>8), byte(n)).To4()})
 	case dns.TypeAAAA:
@@ -161,6 +181,10 @@ type sysConfOpts struct {
 	Env      []string
 	// AuthLimiter replaces the default auth_attempts/block_auth_min lines.
 	AuthLimiter string
+	// PrivatePTR makes the server resolve names of private and loopback
+	// client addresses through the mock upstream (reverse DNS as a source of
+	// runtime client information).
+	PrivatePTR bool
 	// SessionTTL replaces the default session_ttl (720h).
 	SessionTTL string
 	// ExtraUsers is appended to the "users:" list (YAML list items, 2-space
@@ -196,8 +220,12 @@ func sysWriteConfig(dir string, webPort, dnsPort int, o sysConfOpts) error {
 	if o.BindHost == "" {
 		o.BindHost = "127.0.0.1"
 	}
-	fmt.Fprintf(&sb, "dns:\n  bind_hosts:\n    - '%s'\n  port: %d\n  ratelimit: 0\n  upstream_dns:\n    - 127.0.0.1:%d\n  bootstrap_dns: []\n  cache_size: 0\n  use_private_ptr_resolvers: false\n  hostsfile_enabled: false\n  upstream_timeout: 10s\n",
-		o.BindHost, dnsPort, o.UpstreamPort)
+	ptr := "  use_private_ptr_resolvers: false\n"
+	if o.PrivatePTR {
+		ptr = fmt.Sprintf("  use_private_ptr_resolvers: true\n  local_ptr_upstreams:\n    - 127.0.0.1:%d\n", o.UpstreamPort)
+	}
+	fmt.Fprintf(&sb, "dns:\n  bind_hosts:\n    - '%s'\n  port: %d\n  ratelimit: 0\n  upstream_dns:\n    - 127.0.0.1:%d\n  bootstrap_dns: []\n  cache_size: 0\n%s  hostsfile_enabled: false\n  upstream_timeout: 10s\n",
+		o.BindHost, dnsPort, o.UpstreamPort, ptr)
 	sb.WriteString(o.ExtraDNS)
 	if o.TLS != "" {
 		sb.WriteString("tls:\n" + o.TLS)
@@ -209,7 +237,7 @@ func sysWriteConfig(dir string, webPort, dnsPort int, o sysConfOpts) error {
 	}
 	sb.WriteString("whitelist_filters: []\nuser_rules: []\n")
 	if !strings.Contains(o.ExtraTop, "clients:") {
-		sb.WriteString("clients:\n  runtime_sources:\n    whois: false\n    arp: false\n    rdns: false\n    dhcp: true\n    hosts: false\n  persistent: []\n")
+		fmt.Fprintf(&sb, "clients:\n  runtime_sources:\n    whois: false\n    arp: false\n    rdns: %v\n    dhcp: true\n    hosts: false\n  persistent: []\n", o.PrivatePTR)
 	}
 	sb.WriteString(o.ExtraTop)
 	sb.WriteString("schema_version: 29\n")
